@@ -583,6 +583,8 @@ class BaseART(BaseEstimator, ClusterMixin):
         self.is_fitted_ = True
 
         self.W: List[np.ndarray] = []
+        self.weight_sample_counter_ = []
+        self.sample_counter_ = 0
         self.labels_ = np.zeros((X.shape[0],), dtype=int)
         for _ in range(max_iter):
             if verbose:
